@@ -352,7 +352,9 @@ class RuleModel(SymVal):
             return Contract(self._sentence, 'BaseSentenceRule.sentence')
         c, v = self._static(name)
         if isinstance(v, types.FunctionType):
-            if name in self.INLINE: return self.bound(name)
+            from pyvc.interp import is_private_name
+            # the target producers, and private helpers the model has no contract for (e.g. extracted by a refactoring)
+            if name in self.INLINE or (is_private_name(name) and name not in ('_apply', '_get_targets', '_branch_target_hook')): return self.bound(name)
             raise Outside(f'rule method {name} (no contract)')
         if isinstance(v, staticmethod):
             f = v.__func__
